@@ -302,3 +302,23 @@ Proof.
     destruct k as [k|k|]; try discriminate; destruct k as [k|k|]; try discriminate. }
   specialize (H Hno). vm_compute in H. discriminate.
 Qed.
+
+(* ---- the rebuild path of the heartbeat (record absent or only a tombstone) racing a login ---- *)
+(* after: login (1,10), login (2,20), matched delete of (2,20): only the 1 s tombstone is left *)
+Definition rs_tombstoned : rshared := rput (rwrite (rwrite rsh_empty 7 1 10) 7 2 20) 7 (Some tomb).
+
+(* repaired code (SetNX, then CompareAndSwap(tombstone -> rebuilt)): a late heartbeat on the old connection (1,10) racing the
+   login (2,30) ends at the login under EVERY interleaving — from a tombstone and from a truly absent record *)
+Lemma rebuild_windows_closed :
+  forallb (fun sched => loc_is (rloc (fst (completed true (rrun true true (rs_tombstoned, [REnsure 7 1 10 0; RConnect 7 2 30]) sched))) 7) 2 30)
+          (all_scheds 5 2) = true /\
+  forallb (fun sched => loc_is (rloc (fst (completed true (rrun true true (rsh_empty, [REnsure 7 1 10 0; RConnect 7 2 30]) sched))) 7) 2 30)
+          (all_scheds 5 2) = true.
+Proof. split; vm_compute; reflexivity. Qed.
+
+(* a rebuild that READS "absent" and then WRITES (seeded C08-20; = the two-call heartbeat) is refuted: the login lands between
+   the heartbeat's read and its write, and the rebuilt old location overwrites the most recent handshake *)
+Lemma rebuild_read_then_write_refuted :
+  exists sched, rloc (fst (rrun false false (rs_tombstoned, [REnsure 7 1 10 0; RConnect 7 2 30]) sched)) 7 = Some (1, 10) /\
+                snd (rrun false false (rs_tombstoned, [REnsure 7 1 10 0; RConnect 7 2 30]) sched) = [RDone; RDone].
+Proof. exists [0;1;1;0]%nat. vm_compute. split; reflexivity. Qed.
